@@ -3,6 +3,7 @@ import Driver.TileD
 import Driver.StreamD
 import Driver.HuffD
 import Driver.LzhD
+import Driver.VolD
 /-!
 # op2model — line-protocol driver for the executable model
 
@@ -17,6 +18,7 @@ def handlers : List (String → List String → Option String) :=
   handleStream ::
   handleHuff ::
   handleLzh ::
+  handleVol ::
   []
 
 def dispatch (line : String) : String :=
